@@ -103,7 +103,7 @@ def run_chunk(chunk):
         n = 0
         for lid, arrangement, f in content_table(fps_sets_for(pat, old, new, fmt), fill, tier):
             c03.run_project(st, pat, label, old, new, fmt, lid, arrangement, [f], [("a.txt", [fp.raw for fp in f.patterns])], False,
-                            want=("bytes",), prefix="C04")
+                            want=("bytes",), prefix="C04", cfg_eol="\r\n" if ":CRLF:" in lid else "\n")  # a CRLF project has a CRLF config file
             n += 1
         if idx == 0 and fill == "astral":
             st.sample({"pattern": pat.text, "filler": fill, "projects": n, "last_layout": lid})
